@@ -207,3 +207,9 @@ def run(ctx):
     r5_1(ctx, R)
     r5_2(ctx, R)
     r5_3(ctx, R)
+    # "vacated" must mean "dropped in place and invisible to the accessor": the slot-map semantics C02 establishes
+    import c02
+    c02.r2_3(ctx, R)
+    ctx.rule("R2.3", "see C02 R2.3 (shared): REMOVE overwrites an Occupied slot with the free variant on every path (Pin::set = "
+                     "drop in place) and the Occupied-only ACCESSOR yields a child only for Occupied slots; INSERT / REMOVE "
+                     "are all-or-none")
